@@ -353,6 +353,9 @@ func run(cfgPath string) int {
 		if status == "reproduced" || status == "not-replayed" {
 			fmt.Printf("VIOLATION property=%s replay=%s\n", cfg.Property, path)
 			fmt.Fprintf(os.Stderr, "  violated: %s in %s  model=%v %s\n", rv.V.Label, rv.Entry, rv.V.Model, rv.V.Panic)
+			for _, fr := range rv.V.Stack {
+				fmt.Fprintf(os.Stderr, "      at %s\n", fr)
+			}
 			exit = 1
 		}
 	}
